@@ -169,7 +169,7 @@ func corrC18(r *Run) {
 				}
 				for c := 0; c < len(sg.B); c++ {
 					for _, v := range []byte{0x00, 0x0F, 0xF0, 0xFF} {
-						if b >= 2 && r.Quick && r.Rng.Intn(4) != 0 {
+						if b >= 2 && r.Quick && r.Rng.Intn(4) != 0 || b >= 10 && r.Rng.Intn(6) != 0 {
 							continue
 						}
 						m := base.Clone()
